@@ -40,7 +40,7 @@ ASSUMPTIONS = [
     "numbers are compared at 1e-9 relative (cells are doubles, sums of doubles)",
 ]
 SETTINGS: Dict[str, Dict[str, Any]] = {
-    "quick": {"cases": 160, "budget_s": 60, "minimums": {"rows_checked": 600, "conservation_checks": 150, "nontrivial": 40, "cross_report_assets": 30}},
+    "quick": {"cases": 160, "budget_s": 60, "minimums": {"rows_checked": 600, "conservation_checks": 100, "nontrivial": 40, "cross_report_assets": 30}},
     "thorough": {"cases": 3000, "budget_s": 420, "minimums": {"rows_checked": 5000, "conservation_checks": 1200, "nontrivial": 400, "cross_report_assets": 250}},
 }
 REL = Fraction(1, 10**9)
